@@ -4,7 +4,7 @@ CONSTANTS
   NClients = 2
   Choices <- ChoicesCore
   BgSeq <- BgOne
-  Fixed = {"StartAll", "StopAll", "resolveAndAddPeer", "moveTorrent", "reserveID", "cleanLive", "compactLocks", "dhtDropOnStop"}
+  Fixed = {"StartAll", "StopAll", "resolveAndAddPeer", "moveTorrent", "reserveID", "cleanLive", "cleanReset", "compactLocks", "dhtDropOnStop"}
   Budget = 0
   Allowed <- AnyPick
 PROPERTY Returns
